@@ -215,9 +215,11 @@ func (f *File) Fd() uintptr { return f.f.Fd() }
 
 func (f *File) Write(p []byte) (int, error) {
 	torn := simrt.Mutation("write", f.path)
-	if torn && len(p) > 1 {
+	if torn {
 		// crash point inside this write: a prefix reaches the disk, then the process dies
-		_, _ = f.f.Write(p[:len(p)/2])
+		if len(p) > 1 {
+			_, _ = f.f.Write(p[:len(p)/2])
+		}
 		simrt.KillNow()
 	}
 	if disk != nil {
